@@ -59,6 +59,10 @@ def case_strategy(draw):
     for _ in range(n_ops):
         kind = draw(st.sampled_from(["build", "build", "auto", "cross", "cross", "hist", "reopen"]))
         op = {"op": kind, "cat": draw(st.integers(0, 3))}
+        if kind in ("build", "auto", "cross"):
+            # some steps run on two real worker processes: a history may mix sequential and
+            # parallel use of the same cache (state kept in the parent vs. in short-lived workers)
+            op["workers"] = draw(st.sampled_from([1, 1, 1, 2]))
         if kind == "build":
             op.update(cfg=draw(st.one_of(st.none(), st.integers(0, len(pool) - 1))), force=draw(st.sampled_from([False, False, True])), leafsize=draw(st.sampled_from([16, 16, 16, 2, 64])))
         elif kind in ("auto", "hist"):
@@ -79,13 +83,52 @@ def cfg_dict(case, i):
     return {"edges": p["edges"], "closed": p["closed"], "zmin": None, "zmax": None, "num_bins": None, "method": "custom", "rmin": [case["theta"] * 0.05 * p["scale"]], "rmax": [case["theta"] * p["scale"]], "unit": "rad", "cosmology": "Planck15", "rweight": None, "resolution": None}
 
 
-def do_measure(op, case, cats):
+class StepTimeout(Exception):
+    pass
+
+
+class real_workers:
+    """run a step with real multiprocessing (w > 1) inside this process; an alarm guards against a
+    library hang (reported as inconclusive, never as a violation)"""
+
+    def __init__(self, w):
+        self.w = w
+
+    def __enter__(self):
+        if self.w > 1:
+            import signal
+
+            import yaw.utils.parallel as par
+
+            self._saved = par._num_processes
+            par._num_processes = lambda: 64
+
+            def on_alarm(signum, frame):
+                raise StepTimeout()
+
+            self._old = signal.signal(signal.SIGALRM, on_alarm)
+            signal.alarm(180)
+        return self
+
+    def __exit__(self, *a):
+        if self.w > 1:
+            import signal
+
+            import yaw.utils.parallel as par
+
+            signal.alarm(0)
+            signal.signal(signal.SIGALRM, self._old)
+            par._num_processes = self._saved
+        return False
+
+
+def do_measure(op, case, cats, workers=1):
     import yaw
     from yaw.redshifts import HistData
 
     cfg = pl.make_config(cfg_dict(case, op["cfg"]))
     if op["op"] == "auto":
-        cfs = yaw.autocorrelate(cfg, cats[op["cat"]], cats[op["rand"]], count_rr=op["count_rr"], max_workers=1)
+        cfs = yaw.autocorrelate(cfg, cats[op["cat"]], cats[op["rand"]], count_rr=op["count_rr"], max_workers=workers)
     elif op["op"] == "cross":
         kw = {}
         if op["rands"] in ("unk", "both"):
@@ -94,7 +137,7 @@ def do_measure(op, case, cats):
             kw["ref_rand"] = cats[op["rand"]]
         if op["rands"] == "both":
             kw["ref_rand"] = cats[op["rand2"]]
-        cfs = yaw.crosscorrelate(cfg, cats[op["ref"]], cats[op["unk"]], max_workers=1, **kw)
+        cfs = yaw.crosscorrelate(cfg, cats[op["ref"]], cats[op["unk"]], max_workers=workers, **kw)
     else:
         h = HistData.from_catalog(cats[op["cat"]], cfg, max_workers=1)
         return {"hist": (np.asarray(h.data), np.asarray(h.samples))}
@@ -107,7 +150,7 @@ def do_measure(op, case, cats):
 
 
 def op_key(op):
-    return tuple(sorted((k, v) for k, v in op.items()))
+    return tuple(sorted((k, v) for k, v in op.items() if k != "workers"))  # the fresh reference is always sequential
 
 
 def run_case(case):
@@ -133,14 +176,18 @@ def run_case(case):
                     cats[op["cat"]] = Catalog(tmp / "hist" / f"c{op['cat']}", max_workers=1)
                     ck.cls("op:reopen")
                     continue
+                w = int(op.get("workers", 1))
+                if w > 1:
+                    ck.cls("step-on-real-worker-processes")
                 if op["op"] == "build":
-                    if op["cfg"] is None:
-                        cats[op["cat"]].build_trees(None, force=op["force"], leafsize=op["leafsize"], max_workers=1)
-                        sig = "unbinned"
-                    else:
-                        p = case["pool"][op["cfg"]]
-                        cats[op["cat"]].build_trees(p["edges"], closed=p["closed"], force=op["force"], leafsize=op["leafsize"], max_workers=1)
-                        sig = (tuple(p["edges"]), p["closed"])
+                    with real_workers(w):
+                        if op["cfg"] is None:
+                            cats[op["cat"]].build_trees(None, force=op["force"], leafsize=op["leafsize"], max_workers=w)
+                            sig = "unbinned"
+                        else:
+                            p = case["pool"][op["cfg"]]
+                            cats[op["cat"]].build_trees(p["edges"], closed=p["closed"], force=op["force"], leafsize=op["leafsize"], max_workers=w)
+                            sig = (tuple(p["edges"]), p["closed"])
                     odd_leafsize |= op["leafsize"] != 16
                     last[op["cat"]] = sig
                     ck.cls("op:build" + (":force" if op["force"] else ""))
@@ -162,7 +209,8 @@ def run_case(case):
                 if stale:
                     ck.nontrivial = True
                     ck.cls("measure-after-different-trees")
-                got = do_measure(op, case, cats)
+                with real_workers(w):
+                    got = do_measure(op, case, cats, workers=w)
                 for c, w in want.items():
                     last[c] = w
                 key = op_key(op)
@@ -170,8 +218,20 @@ def run_case(case):
                     fresh_n += 1
                     d = tmp / f"fresh{fresh_n}"
                     d.mkdir()
-                    fresh = [pl.make_catalog(d / f"c{i}", c, centers) for i, c in enumerate(case["scene"]["cats"])]
-                    memo[key] = do_measure(op, case, fresh)
+
+                    # the reference runs in a forked child: it must not touch any in-process state
+                    # (module-level caches etc.) of the process that carries the history
+                    def fresh_reference(d=d, op=op):
+                        fresh = [pl.make_catalog(d / f"c{i}", c, centers) for i, c in enumerate(case["scene"]["cats"])]
+                        return do_measure(op, case, fresh)
+
+                    from vlib.isolate import run_isolated
+
+                    status, payload = run_isolated(fresh_reference, bound=60.0)
+                    if status != "ok":
+                        ck.fail(f"fresh-reference:{op['op']}:{status}", str(payload)[:300])
+                        break
+                    memo[key] = payload
                 exp = memo[key]
                 ck.cls(f"op:{op['op']}")
                 if set(got) != set(exp):
@@ -191,6 +251,8 @@ def run_case(case):
                     prev = [o for o in case["ops"][:step]]
                     ck.fail(f"history:{op['op']}:differs-from-fresh-cache", f"step {step} ({op}); {bad}; history: {prev}")
                     break
+            except StepTimeout:
+                return Result.discard("real-pool-step-timeout")
             except Exception as e:  # noqa
                 ck.fail(f"step:{op['op']}|{exc_sig(e)}", f"step {step} {op}: {type(e).__name__}: {e}")
                 break
